@@ -260,7 +260,17 @@ def run(R):
             R.count("gamut-where:" + where); R.count("gamut-rows-with-zero-channel:%s" % ("none" if not np.any(X == 0) else ("all" if np.all(np.any(X == 0, axis=1)) else "some")))
 
             def impl():
-                g = lambda Y, **kw: dreye.compute_gamut(Y, metric=metric, seed=seed, **kw)  # noqa: E731
+                def g(Y, **kw):
+                    # a cloud whose rows all have one chromaticity has size 0; relative to such a reference the ratio is 0/0, which has no
+                    # value: dreye answers nan or a loud ZeroDivisionError, and the property's "relative to" clauses say nothing there
+                    # (the checks below are already conditioned on g != 0 or distinct). Only that refusal, only for such a cloud.
+                    try:
+                        return dreye.compute_gamut(Y, metric=metric, seed=seed, **kw)
+                    except ZeroDivisionError:
+                        if distinct or "relative_to" not in kw:
+                            raise
+                        R.count("gamut:single-chromaticity-reference:0/0-refused-loudly")
+                        return float("nan")
                 out = (g(Xg), g(X * scales), g(X, relative_to=X), g(sub, relative_to=X), (g(X, relative_to=sup) if sup is not None else 0.0),
                        g(mixed), g(X, relative_to=mixed))
                 if Xd is not None:
